@@ -12,7 +12,7 @@ EXTENDS Namespaces, XPathSyntax, TLC, Json
 
 CONSTANT Tier
 
-U1 == Cp("u1")  U2 == Cp("u2")
+U1 == Cp("u1")  U2 == <<117, 38, 50>>      \* u1 and u&2: a namespace name is the NORMALIZED value of its declaration (written u&amp;2)
 PP == Cp("p")   QQ == Cp("q")   II == Cp("e")   JJ == Cp("d")      \* document prefixes p q; caller prefixes e d
 Order == <<XmlPre, <<>>, PP, QQ>>
 
